@@ -323,6 +323,17 @@ pub fn run_c12(tier: Tier) -> i32 {
             crate::board_checks::clock_sweep(&ctx, &p, halves, fulls);
         }
     }
+    // the longest texts: placements in which pieces and single empty squares alternate (up to 71
+    // characters), all four castling rights, and both clocks at every magnitude — and their flips
+    for f in ["r1b1k1nr/p1p1p1p1/1p1p1p1p/n1q5/N1Q5/1P1P1P1P/P1P1P1P1/R1B1K1NR w KQkq - 0 1", "r1b1k2r/p1p1p1p1/1p1p1p1p/n1q1n3/N1Q1N3/1P1P1P1P/P1P1P1P1/R1B1K2R b KQkq - 0 1", "1k1r1b1r/p1p1p1p1/1p1p1p1p/n1q1n3/N1Q1N3/1P1P1P1P/P1P1P1P1/1K1R1B1R w - - 0 1"] {
+        match Pos::from_fen(f) {
+            Ok(p) => {
+                crate::board_checks::clock_sweep(&ctx, &p, halves, fulls);
+                crate::board_checks::clock_sweep(&ctx, &p.flip(), halves, fulls);
+            }
+            Err(e) => rep.machinery(format!("dense base FEN rejected by the reference: {}", e)),
+        }
+    }
     // part 2: single-fault mutants and short strings
     let t0 = Instant::now();
     let mut strings: Vec<String> = Vec::new();
